@@ -1,11 +1,11 @@
 #!/bin/bash
-# try_seeded.sh <seeded id> <harness> <runs per worker> [cfg] : fast development probe - apply one seeded change, rebuild one
+# try_seeded.sh <seeded id or patch file> <harness> <runs per worker> [cfg] : fast development probe - apply one seeded change, rebuild one
 # harness in one configuration, run 16 x N seeds, print the violation classes, restore /repo (and its build)
 set -u
 id="$1"; h="$2"; n="$3"; cfg="${4:-plain}"
 cd /verif
 git -C /repo diff --quiet || { echo "/repo has local changes: refusing"; exit 2; }
-git -C /repo apply "/verif/seeded/$id/patch.diff" || exit 3
+if [ -f "$id" ]; then git -C /repo apply "$(realpath "$id")" || exit 3; else git -C /repo apply "/verif/seeded/$id/patch.diff" || exit 3; fi
 trap 'git -C /repo checkout -- .; bash /verif/scripts/build.sh '"$cfg $h"' >/dev/null 2>&1' EXIT
 bash scripts/build.sh "$cfg" "$h" 2>&1 | grep -E "error" | head
 mkdir -p build/tmp/try
